@@ -7,7 +7,7 @@ Tie
     four ASCII readers are asserted to be the literals of the Lean model);
   * exact correspondence between the Lean models (run through Drivers/C04.lean) and pyyeti.nastran.op4:
       colstats  OP4._sparse_col_stats                      == Op4.colStats
-      enc       bytes written by op4.write(binary=True)    == Op4.encFileBytes   (or struct_error)
+      enc       bytes written by op4.write(binary=True)    == Op4.encFileBytesFx (the writer with _split_strings)
       dec-d     op4.load(into='list', sparse=False)        == Op4.decodeBytes    (the function of file_roundtrip_bytes)
       dec-s/a   op4.load(..., sparse=True/None)            == Op4.rdFile + cooOfPuts / sparseAuto
       dir       op4.dir                                    == Op4.dirWords
@@ -73,8 +73,8 @@ THEOREMS = [
         "coo_view_correct write_sparse_eq_write_dense denseMat_entry ensure_2d_shapes "
         "vector_input_is_row write_input_normalised plumb_spec write_replaces_file read_back_bits read_back_bits_subnormal "
         "read_back_bits_finite read_back_needs_17 dir_matches_load_ascii sparse_views_ascii "
-        # Props/C04Fix.lean: the repair candidates for F2 / F3 (patched writers, Model/Op4Fixed.lean)
-        "split_strings_spec nonbigmat_never_overflows_fixed nonbigmat_writes_fixed column_roundtrip_nonbigmat_fixed nonbigmat_unchanged_fixed fmtE_width_fixed width_fixed field_roundtrip_fixed ascii_value_half_unit_fixed ascii_values_roundtrip_fixed file_writes_fixed file_roundtrip_binary_fixed file_roundtrip_ascii_fixed decOfFx_zero ascii_entry_spec_fixed write_domain_fixed file_roundtrip_binary_domain_fixed file_roundtrip_bytes_domain_fixed"
+        # Props/C04Fix.lean: the binary nonbigmat writer with _split_strings (F2 repaired; Model/Op4Fixed.lean)
+        "split_strings_spec nonbigmat_never_overflows_fixed nonbigmat_writes_fixed column_roundtrip_nonbigmat_fixed nonbigmat_unchanged_fixed file_writes_fixed file_roundtrip_binary_fixed write_domain_fixed file_roundtrip_binary_domain_fixed file_roundtrip_bytes_domain_fixed decOf_cases writer_eq_unsplit file_writer_eq_unsplit"
     ).split()
 ]
 TRUSTED = [
@@ -113,10 +113,11 @@ RULE = (
 ASSUMPTIONS = [
     "values are finite doubles; names are ASCII; digits between 1 and 73 (perline >= 1)",
     "binary: the writer's own domain (write_domain): dimensions <= 2^31 - 1, cols + 1, form and every column record length "
-    "12 + 8*elems / 4*(3 + nwords) below 2^31, nonbigmat strings with L + 1 < 32768 (F2); form is a non-negative integer",
+    "12 + 8*elems / 4*(3 + nwords) below 2^31, form is a non-negative integer (nonbigmat strings are split at 16383 // multiplier rows: every packed header fits)",
     "ASCII theorems: 6*rows < 10^8, columns + 1 < 10^8, form < 10^8 (every integer fits its 8-character field), "
-    "valid names of at most 8 characters, at least one matrix per file, every written value fits its field "
-    "(not negative with a 3-digit exponent: finding F3); the writer's ValueError above 99 999 999 rows is not modelled",
+    "valid names of at most 8 characters, at least one matrix per file (every finite double is admitted: a negative value "
+    "with a 3-digit exponent is written with one digit less, F3 repaired); the writer's ValueError above 99 999 999 rows is "
+    "not modelled",
     "ASCII reader model: no carriage returns, no underscores / inf / nan in numbers, announced perline and numlen "
     ">= 1, no negative row / column / length fields (the model answers `reject`; the harness never produces them)",
     "scipy.sparse inputs: double precision values in the duplicate-summing model (float32 / integer sparse inputs are "
@@ -137,20 +138,19 @@ PARTIAL = (
     "read_back_bits is per field ((pyFloat? (fmtE d b)).map decBits = some b for every finite double, digits 16..5000): "
     "the file-level statement follows entry by entry from file_roundtrip_ascii + ascii_entry_spec but is not restated; "
     "complex elements of the sparse read additionally pass through re + 1j*im (cooEntry); (5) dir / load on ASCII variants the writer never produces and files with carriage returns are outside "
-    "(C11); the ASCII writer's ValueError above 99 999 999 rows is not modelled; (6) REPAIR CANDIDATES for F2 / F3 "
-    "(corpus/c04_F2_candidate_fix.diff, corpus/c04_F3_candidate_fix.diff; /repo is not patched, the model of the check is "
-    "the present code): proved for the patched writers (Props/C04Fix.lean, Model/Op4Fixed.lean) are split_strings_spec, "
-    "nonbigmat_never_overflows_fixed, nonbigmat_writes_fixed, column_roundtrip_nonbigmat_fixed, nonbigmat_unchanged_fixed, "
-    "file_writes_fixed, file_roundtrip_binary_fixed, write_domain_fixed, file_roundtrip_binary_domain_fixed, "
-    "file_roundtrip_bytes_domain_fixed (F2: whole files at word level, on the true domain and at byte level - decodeBytes of "
-    "the patched bytes = canonFile -, no `stringsFit` hypothesis) and "
-    "fmtE_width_fixed, width_fixed, field_roundtrip_fixed, ascii_value_half_unit_fixed, ascii_values_roundtrip_fixed, "
-    "file_roundtrip_ascii_fixed, ascii_entry_spec_fixed, decOfFx_zero (F3: fields, value blocks and whole files, no `Fits` "
-    "hypothesis, every digits 1..73 - with digits = 1 the fallback prints one digit and no point, pyFloat_sciChars0; the "
-    "whole-file chain is the chain of file_roundtrip_ascii copied into the namespace Op4AFx - Lemmas/Op4FixedChain{A,B,C}.lean "
-    "- with the three facts about the formatter replaced); NOT done for the candidates: read_back_bits for the "
-    "patched writer (it holds for a `Wide` value from 17 digits on only), the sparse views and the sparse-input branch "
-    "of the patched writers (tied by the candidate checks, not proved)"
+    "(C11); the ASCII writer's ValueError above 99 999 999 rows is not modelled; (6) the binary nonbigmat writer with "
+    "_split_strings (F2 repaired in /repo, 27f7d6b) is Model/Op4Fixed.lean encMatWordsFx / writeFileWordsFx: the whole-file "
+    "theorems are proved for it without any hypothesis on string lengths (Props/C04Fix.lean: file_writes_fixed, "
+    "file_roundtrip_binary_fixed, write_domain_fixed, file_roundtrip_binary_domain_fixed, file_roundtrip_bytes_domain_fixed, "
+    "column_roundtrip_nonbigmat_fixed, split_strings_spec, nonbigmat_never_overflows_fixed); the theorems of Props/C04.lean "
+    "that mention encMatWords / writeFileWords (sparse inputs write_sparse_eq_write_dense, coo_view_correct, sparse_auto_rule, "
+    "write_input_normalised, file_roundtrip_bytes, file_writes_iff, C11's skip_positions) are about the encoder WITHOUT the "
+    "split, which is the writer whenever no run of non-zero rows exceeds 16383 // multiplier (writer_eq_unsplit, "
+    "file_writer_eq_unsplit): for matrices with longer strings those statements are tied by the enc / dec streams (16384-row "
+    "files, ndarray and scipy.sparse input, three read modes), not proved; the driver's wr stream uses the unsplit "
+    "writeAllWords (its inputs have at most 40 rows); (7) F3 is swapped in place (fmtE = numform(value)): read_back_bits* "
+    "carry the hypothesis Wide d b = false or 17 <= d - a negative value with a 3-digit exponent written with the default 16 "
+    "digits reads back to 16 significant digits, not bit-identical"
 )
 MANIFEST = {
     "level_text": "Proof (Lean 4, kernel-checked, standard axioms) about exact models of op4.write / op4.load / op4.dir: the "
@@ -159,7 +159,7 @@ MANIFEST = {
     "Binary: for every non-empty list of matrices, layout and byte order on the writer's own domain (every integer handed "
     "to struct.pack fits: write_domain), decodeBytes of the written bytes is the written names (lower-cased), shapes, forms, "
     "types and columns (file_roundtrip_bytes_domain / file_roundtrip_binary_domain; -0.0 outside written strings reads as "
-    "+0.0); the writer fails exactly outside that domain or when a nonbigmat string has L+1 >= 32768 (pack_fits_i32, F2). "
+    "+0.0); nonbigmat strings are split at 16383 // multiplier rows (_split_strings, F2 repaired: split_strings_spec, nonbigmat_never_overflows_fixed), so the writer fails only outside that domain (file_writes_fixed; the whole-file theorems for the splitting writer are the _fixed ones of Props/C04Fix.lean, those for the unsplit encoder coincide with it below 16384-row strings: writer_eq_unsplit). "
     "sparse=True returns exactly the stored elements as (row, col, value) triplets in file order - the non-zero elements "
     "for the sparse layouts, everything from the first to the last non-zero row for the dense layout - and its .toarray() "
     "is the dense read up to the sign of zeros (coo_view_correct, storedIdx_spec); sparse=None returns a sparse matrix iff "
@@ -170,10 +170,11 @@ MANIFEST = {
     "vector_input_is_row: a 1-d array is one row); every call replaces the file. ASCII: for every non-empty list of "
     "matrices and digits 1..73, loadAscii of the written text returns per matrix the name field, rows, columns, form, type "
     "and announced format, and every non-zero element reads back as exactly the printed decimal (file_roundtrip_ascii, "
-    "ascii_entry_spec), which is within half a unit of the last printed digit (ascii_value_half_unit) - under the "
-    "hypothesis that every value fits its field, which holds iff not (x<0 and |exp10|>=100) (fmtE_width, F3); with "
+    "ascii_entry_spec), which is within half a unit of the last printed digit (ascii_value_half_unit) - for EVERY "
+    "finite double: a negative value with a 3-digit exponent, whose '%E' text is one character wider than the field, is "
+    "printed with one digit less (numform(value), F3 repaired: fmtE_width; the half unit is then of that digit); with "
     "digits >= 16 the decimal rounds back to the bit-identical double, for every finite double incl. subnormals and "
-    "signed zeros (read_back_bits, read_back_bits_subnormal, read_back_bits_finite; 16 significant digits are not enough: "
+    "signed zeros - for a negative value with a 3-digit exponent from digits >= 17 on - (read_back_bits, read_back_bits_subnormal, read_back_bits_finite; 16 significant digits are not enough: "
     "read_back_needs_17); the sparse views of ASCII files are the same triplets / rule with printed decimals "
     "(sparse_views_ascii); dir lists exactly what load returns (dir_matches_load_ascii; binary: C11). ascii_slicing, "
     "ascii_column_roundtrip_{dense,bigmat,nonbigmat} for every partition into strings; _sparse_col_stats yields exactly "
@@ -189,10 +190,9 @@ MANIFEST = {
     "code (the sparse path refuses where the ndarray path refuses: write_sparse_eq_write_dense has no size hypothesis); "
     "the regression is guarded by the oracle: _oracle_f49_quick in every run (the inner binary writer on a file object "
     "that stops after the column header: no large memory), _oracle_f49 (the full 2 GiB write, then dir) in the thorough tier. "
-    "Repair candidates for F2 and F3 (not applied to /repo): corpus/c04_F{2,3}_candidate_fix.diff with `_fixed` theorems in "
-    "Props/C04Fix.lean about the patched writers of Model/Op4Fixed.lean; the patched text (scratch worktree) is tied to that "
-    "model by corpus/c04_F{2,3}_candidate_check.py (exact bytes / text / fields, evidence in corpus/c04_F{2,3}_candidate_"
-    "evidence.json), outside ./check. "
+    "Findings F2 and F3 are repaired in /repo (27f7d6b, 7ee1407) with the patches of corpus/c04_F{2,3}_candidate_fix.diff; the "
+    "models follow the repaired code and the oracle keeps both families as regression guards (FIXED_F2, FIXED_F3); the fmt "
+    "stream compares the Lean fmtE with the function numform that _write_ascii_header returns. No open finding. "
     "Trusted: Lean kernel; propext, Classical.choice, Quot.sound; the Python harness; CPython / numpy / scipy as listed.",
     "technique": "Lean 4 proof (induction over lines/strings/columns/matrices, omega on the packed header, bisection "
     "invariant for the %E exponent, rational arithmetic for the half-unit bound and for round-to-nearest of a decimal "
@@ -202,8 +202,8 @@ MANIFEST = {
 }
 
 FIXED_F49 = "op4-binary-dense-sparse-input-record-ge-2GiB-int32-wrap"
-KNOWN_F2 = "op4-binary-nonbigmat-string-ge-16384-rows"
-KNOWN_F3 = "op4-ascii-negative-3digit-exponent"
+FIXED_F2 = "op4-binary-nonbigmat-string-ge-16384-rows"  # repaired in /repo (fix: 27f7d6b, _split_strings): regression guard
+FIXED_F3 = "op4-ascii-negative-3digit-exponent"  # repaired in /repo (fix: 7ee1407, numform(value)): regression guard
 FIXED_F24 = "op4-binary-skip-zero-column-matrix"  # found by this check, repaired in /repo (fix: commit 24d6cc5)
 
 # ---------------------------------------------------------------------------------------------
@@ -889,7 +889,7 @@ def _rand_field(rng):
 
 
 def _big_string_cases():
-    """single strings of 16383 / 16384 rows (both sides of the F2 boundary), real and complex"""
+    """single strings of 16383 / 16384 rows (both sides of the _split_strings boundary; F2 before its repair), real and complex"""
     out = []
     for rows, cplx, at in ((16383, False, 0), (16384, False, 0), (8191, True, 3), (8192, True, 3)):
         D = np.zeros((rows + at + 2, 1), complex if cplx else float)
@@ -1465,8 +1465,7 @@ def correspondence(ctx):
         vals += [0.5, 1.5, 2.5, 0.125, 0.375, 9.5, 99.5, 0.95, 9.9999999999999999e22, 1e23, 4.35, 0.15, 2.675]
         for x in vals:
             for d in (16, rng.choice([1, 2, 3, 5, 9, 12, 17, 20]), rng.choice([0, 1, 7])):
-                numlen = d + 7
-                want = ("%" + "%d.%dE" % (numlen, d)) % x
+                want = _numform(op4, d)(x)
                 b = struct.unpack("<Q", struct.pack("<d", x))[0]
                 req.append("fmt %d %d" % (d, b))
                 post.append(("fmt", (x, d), want))
@@ -1556,8 +1555,8 @@ def correspondence(ctx):
                 model = bytes.fromhex(r).decode("latin1") if r != "bad-op" else r
                 x, d = inp
                 ctx.case(("fmt", x, d), nontrivial=True, branch="stream:fmt")
-                if len(model) != d + 7:
-                    ctx.count("branch:fmt-overwide")
+                if len("%.*E" % (d, x)) > d + 7:
+                    ctx.count("branch:fmt-fallback")  # negative, three-digit exponent: printed with one digit less
                 if model != impl:
                     ctx.disagree("fmt", {"x": repr(x), "digits": d}, impl, model)
             else:
@@ -1571,6 +1570,8 @@ def correspondence(ctx):
                         ctx.count("kind:" + m["kind"] + ("-complex" if m["cplx"] else "-real"))
                     if r == "struct_error":
                         ctx.count("branch:struct_error")
+                    if case["opt"] == "nonbigmat" and any(_long_string(m["D"], m["cplx"]) for m in case["mats"]):
+                        ctx.count("branch:split-string")  # a run of >= 16384 rows (8192 complex): _split_strings
                     model = r
                 elif stream in ("dec-d", "dec-s", "dec-a"):
                     model = _parse_dec(r)
@@ -1591,6 +1592,8 @@ def correspondence(ctx):
                         ctx.count("aread:" + case["opt"] + ("-complex" if any(m["cplx"] for m in case["mats"]) else "-real"))
                         if model[0] == "error":
                             ctx.count("aread:rejected")
+                        if any(_neg3(_logical(m), d_) for m in case["mats"]):
+                            ctx.count("aread:neg3")  # a negative value with a three-digit exponent, read back
                 else:
                     model = r
                 if model != impl:
@@ -1612,10 +1615,10 @@ def correspondence(ctx):
             for d in ctx.disagreements[:6]]
         if not ctx.disagreements and not ctx.broken:  # (an already broken run may make branches unreachable)
             ctx.require_branches(["stream:colstats", "stream:fmt", "stream:enc", "stream:dec-d", "stream:dec-s",
-                              "stream:dec-a", "stream:dir", "stream:asc", "branch:struct_error",
-                              "branch:fmt-overwide", "opt:auto", "opt:dense", "opt:bigmat", "opt:nonbigmat",
+                              "stream:dec-a", "stream:dir", "stream:asc", "branch:split-string",
+                              "branch:fmt-fallback", "opt:auto", "opt:dense", "opt:bigmat", "opt:nonbigmat",
                               "kind:sparse-complex", "kind:ndarray-real", "read:dec-a-sparse", "read:dec-a-dense",
-                              "stream:aread", "aread:rejected", "aread:dense-real", "aread:dense-complex",
+                              "stream:aread", "aread:neg3", "aread:dense-real", "aread:dense-complex",
                               "aread:bigmat-real", "aread:bigmat-complex", "aread:nonbigmat-real",
                               "aread:nonbigmat-complex", "digits:default", "digits:>16"]
                              + ["digits:%d" % d for d in range(1, 17)]
@@ -1642,6 +1645,20 @@ def correspondence(ctx):
 
 # ---------------------------------------------------------------------------------------------
 # model-free oracle:  read(write(x)) == x
+
+
+_NUMFORM = {}
+
+
+def _numform(op4, digits):
+    """the function `numform(value)` that `_write_ascii_header` hands to every ASCII writer (a '%' string before the
+    repair of F3: wrapped, so that a reverted tree is compared too)"""
+    key = (id(op4), digits)
+    if key not in _NUMFORM:
+        import io
+        nf = op4.OP4()._write_ascii_header(io.StringIO(), "a", np.ones((1, 1)), digits, bigmat=False, form=None)[4]
+        _NUMFORM[key] = nf if callable(nf) else (lambda v, _f=nf: _f % v)
+    return _NUMFORM[key]
 
 
 def _neg3(D, digits):
@@ -1687,10 +1704,19 @@ def _same_bits(a, b):
 
 
 def _rounded(D, digits):
-    """x rounded to digits+1 significant decimal digits, then to the nearest double"""
+    """what an ASCII file written with `digits` must read back as: x rounded to digits+1 significant decimal digits -
+    digits for a negative value with a three-digit exponent, which is written with one digit less so that it fits its
+    field (documented in _write_ascii_header since the repair of F3) - then to the nearest double"""
     v = np.ascontiguousarray(D)
     flat = (v.view(np.float64) if np.iscomplexobj(v) else v).reshape(-1)
-    out = np.array([float("%.*E" % (digits, x)) for x in flat.tolist()], float).reshape(flat.shape)
+
+    def one(x):
+        s = "%.*E" % (digits, x)
+        if len(s) > digits + 7:
+            s = "%.*E" % (max(digits - 1, 0), x)
+        return float(s)
+
+    out = np.array([one(x) for x in flat.tolist()], float).reshape(flat.shape)
     if np.iscomplexobj(v):
         return out.view(np.complex128).reshape(v.shape)
     return out.reshape(v.shape)
@@ -1716,10 +1742,10 @@ def _family(case, binary, what):
         if binary:
             if (case["opt"] == "nonbigmat" and D.shape[0] < 65536 and _long_string(D, m["cplx"])
                     and what == "write-raises"):
-                return KNOWN_F2
+                return FIXED_F2
         else:
             if _neg3(D, case["digits"]):
-                return KNOWN_F3
+                return FIXED_F3
     if binary and what in ("dir-raises", "namelist-raises") and any(m["D"].shape[1] == 0 for m in case["mats"]):
         return FIXED_F24
     kinds = "+".join(sorted({m["kind"] + ("-complex" if m["cplx"] else "-real") for m in case["mats"]}))
@@ -1804,7 +1830,7 @@ def _check_roundtrip_(op4, sc, case, inputs, binary):
                 return ("dtype", str(A.dtype), "complex" if m["cplx"] else "float")
             if int(rf[k]) not in _expected_form(m, case["forms"][k]):
                 return ("form", int(rf[k]), sorted(_expected_form(m, case["forms"][k])))
-            want = D if (binary or case["digits"] >= 16) else _rounded(D, case["digits"])
+            want = D if (binary or case["digits"] >= 17) else _rounded(D, case["digits"])
             if not _same_bits(A, want):
                 bad = np.argwhere(~((A == want) | ((A != A) & (want != want))))
                 i, j = (int(bad[0][0]), int(bad[0][1])) if len(bad) else (-1, -1)
@@ -1830,7 +1856,7 @@ def _check_roundtrip_(op4, sc, case, inputs, binary):
     for nm, X in dct.items():
         k = max(i for i, n in enumerate(names) if n == nm)
         m = case["mats"][k]
-        want = m["D"] if (binary or case["digits"] >= 16) else _rounded(m["D"], case["digits"])
+        want = m["D"] if (binary or case["digits"] >= 17) else _rounded(m["D"], case["digits"])
         if not _same_bits(np.asarray(X), want):
             return ("dict-values", nm, "matrix %d" % k)
     # named subsets = the full read filtered by name: every single name (a repeated one included), as a string and
@@ -1851,7 +1877,7 @@ def _check_roundtrip_(op4, sc, case, inputs, binary):
                 return ("namelist", sn, [names[i] for i in idx])
             for X, i in zip(sm, idx):
                 m = case["mats"][i]
-                want = m["D"] if (binary or case["digits"] >= 16) else _rounded(m["D"], case["digits"])
+                want = m["D"] if (binary or case["digits"] >= 17) else _rounded(m["D"], case["digits"])
                 if not _same_bits(np.asarray(X), want):
                     return ("namelist-values", arg, "matrix %d" % i)
             if list(sd) != list(dict.fromkeys(names[i] for i in idx)):
@@ -1859,7 +1885,7 @@ def _check_roundtrip_(op4, sc, case, inputs, binary):
             for nm, X in sd.items():
                 k = max(i for i in idx if names[i] == nm)
                 m = case["mats"][k]
-                want = m["D"] if (binary or case["digits"] >= 16) else _rounded(m["D"], case["digits"])
+                want = m["D"] if (binary or case["digits"] >= 17) else _rounded(m["D"], case["digits"])
                 if not _same_bits(np.asarray(X), want):
                     return ("namelist-dict-values", nm, "matrix %d (the last of that name)" % k)
     return None
@@ -2038,7 +2064,7 @@ def _oracle_variant(ctx, op4, sc, case):
 def _unrepresentable(case):
     """ASCII with fewer than 17 significant digits: a value that rounds past the largest double cannot be
     'read back to the requested digits' (it reads as inf) - outside the property's domain"""
-    if case["digits"] >= 16:
+    if case["digits"] >= 17:
         return False
     for m in case["mats"]:
         D = m["D"]
@@ -2069,8 +2095,7 @@ def _oracle_case(ctx, op4, sc, case, rng, record=True):
         fails.append(f)
         if record:
             ctx.fail(f["family"], f["what"], f["input"], f["observed"], f["required"])
-            if f["family"] not in (KNOWN_F2, KNOWN_F3):
-                ctx.extra["unknown_failures"] = ctx.extra.get("unknown_failures", 0) + 1
+            ctx.extra["unknown_failures"] = ctx.extra.get("unknown_failures", 0) + 1
     return fails
 
 
